@@ -490,6 +490,6 @@ def _check_stacked_jacobian(case):
 
 SUBCHECKS = [
     HypSub("aldi_trees", _tree_case, _check_tree, _classify_tree, budget={"quick": 1500, "thorough": 40000}),
-    HypSub("steady_jacobian", _solver_case, _check_steady_jacobian, _classify_solver, budget={"quick": 300, "thorough": 6000}),
-    HypSub("stacked_jacobian", _solver_case, _check_stacked_jacobian, _classify_solver, budget={"quick": 300, "thorough": 6000}),
+    HypSub("steady_jacobian", _solver_case, _check_steady_jacobian, _classify_solver, budget={"quick": 300, "thorough": 16000}),
+    HypSub("stacked_jacobian", _solver_case, _check_stacked_jacobian, _classify_solver, budget={"quick": 300, "thorough": 16000}),
 ]
